@@ -20,6 +20,11 @@ of EVERY circuit) and the waveform model `KV.Wave` (`_wave_eval`, propagation on
   - `sdf_delays_are_wave_delays` (IOPATH: entry of block `inst`, input pin `ipin`, qualifier polarities, data set `d` ⇒ the
     WaveSim delay of the line at that pin), `sdf_interconnect_delays_are_wave_delays` (the fork line), `sdf_other_lines_zero`
     — from `iopath_lands_file`, `interconnect_lands_file`, `others_zero_*`; `sdf_delays_nonneg`;
+  - `sdf_delays_are_wave_delays_net`, `sdf_interconnect_delays_are_wave_delays_net`, `sdf_untabled_lines_zero_net`: the same with
+    the two tables READ OFF THE NETLIST (`netPinLine`, `netIcLine` in Model/SdfWave.lean: `circuit.cells.get(name)`,
+    `cell.ins[tlib.pin_index(kind, pin)]`, the fork search of `interconnects`, over the canonical dump `Net`, the node names and
+    `pin_index`) for EVERY well-formed netlist: the IOPATH line is the line whose reader is the named cell at the library's pin
+    position, the INTERCONNECT line ends at a fork, and the side condition "no line is reached by both loops" is a theorem;
   - `sdf_sta_window`: EVERY well-formed netlist, topological order, `strip_forks` / `c_reuse` setting, capacity vector,
     `c_caps_min ≥ 4` (the hypotheses of `C04.wave_timing_all_circuits`), every block list without negative numbers, every data
     set, every propagation on the real memory layout: the waveform in the region of every output slot has all its transitions
@@ -35,9 +40,11 @@ of EVERY circuit) and the waveform model `KV.Wave` (`_wave_eval`, propagation on
     1.000 + 0.125 + 1.000 + 0.250 + 2.000 + 0.500, computed by `decide +kernel`, with every hypothesis discharged.
 * **Correspondence** (harness/c14.py, clause `sdf-wave`): on generated circuits and SDF texts with values on the dyadic grid the
   real `WaveSim(c, delays=df.iopaths(c, tlib) + df.interconnects(c, tlib))` (all three data sets, both `strip_forks` settings,
-  random stimuli) against the composition of the models through the driver (`sdfwave`: text → grammar model → block list →
-  `sdfDelay` with the tables exported from the real circuit → `simWave` on the op rows of the `SimOps` model): the delay array
-  cell by cell and the waveform in the region of EVERY output slot. A mismatch is a broken tie.
+  random multi-transition stimuli) against the composition of the models through the driver — `sdftabs`: `netPinLine` / `netIcLine`
+  on the dump of the real circuit == the tables exported from the real circuit by structural search (independent of `sdf.py`);
+  `sdfwave`: text → grammar model → block list → `sdfDelay` with these tables → `simWave` on the op rows of the `SimOps` model
+  (== the real `ops`, `c_locs`, `c_caps`): the delay array cell by cell, the waveform in the region of EVERY output slot and of
+  every written signal. A mismatch is a broken tie.
 * **Trusted / sampled**: that lark reads the grammar as the model does, that the tables describe the real circuit (exported by
   structural search), that the real `SimOps` / `_wave_eval` compute the model's rows and results (C01/C03/C08 correspondences),
   `float32` exactness on the grid. -/
